@@ -213,3 +213,38 @@ func c17Scenarios(tier string) []struct {
 	}
 	return out
 }
+
+// c17RaceScenarios: instances for the race oracle (every access of every schedule is checked).
+// Keys=false: plain preemption-bounded enumeration, nothing pruned (pairs of activities, small);
+// Keys=true: larger mixes with state-key pruning, the key extended by which thread kinds touched which locations.
+func c17RaceScenarios(tier string) []struct {
+	P     c17Params
+	Bound int
+	Keys  bool
+} {
+	type sc = struct {
+		P     c17Params
+		Bound int
+		Keys  bool
+	}
+	out := []sc{
+		{c17Params{Name: "peer+producer", Producers: 1, Peers: 1}, 1, false},
+		{c17Params{Name: "producer+timer", PreReport: true, Producers: 1, Fire: 1}, 1, false},
+		{c17Params{Name: "peer+timer", PreReport: true, Peers: 1, Fire: 1}, 1, false},
+		{c17Params{Name: "stop+producer", Producers: 1, Stop: true}, 2, false},
+		{c17Params{Name: "stop+timer", PreReport: true, Stop: true, Fire: 1}, 2, false},
+		{c17Params{Name: "stop+peer", Peers: 1, Stop: true}, 1, false},
+		{c17Params{Name: "traffic", Producers: 1, Peers: 2, Fire: 1}, 2, true},
+		{c17Params{Name: "stop-vs-all", PreReport: true, Producers: 1, Peers: 1, Stop: true, Fire: 1}, 2, true},
+	}
+	if tier == "thorough" {
+		out = append(out, []sc{
+			{c17Params{Name: "peers", Peers: 2}, 2, false},
+			{c17Params{Name: "peer+producer+timer", PreReport: true, Producers: 1, Peers: 1, Fire: 1}, 2, false},
+			{c17Params{Name: "traffic-2p", Producers: 2, Peers: 2, Fire: 2}, 3, true},
+			{c17Params{Name: "timers", PreReport: true, Producers: 1, Peers: 2, Fire: 3}, 3, true},
+			{c17Params{Name: "stop-vs-all-2p", PreReport: true, Producers: 2, Peers: 2, Stop: true, Fire: 2}, 2, true},
+		}...)
+	}
+	return out
+}
